@@ -1854,7 +1854,7 @@ class DynamicSeedingInstrumentation(transformer.DynamicSeedingInstrumentationAda
                 code_object_id,
                 node,
                 maybe_compare,
-                maybe_compare_index,
+                node.get_instruction_position(maybe_compare),
             )
             return
 
@@ -1872,7 +1872,7 @@ class DynamicSeedingInstrumentation(transformer.DynamicSeedingInstrumentationAda
                 code_object_id,
                 node,
                 maybe_string_func,
-                maybe_string_func_index,
+                node.get_instruction_position(maybe_string_func),
             )
             return
 
@@ -1891,7 +1891,7 @@ class DynamicSeedingInstrumentation(transformer.DynamicSeedingInstrumentationAda
                         code_object_id,
                         node,
                         maybe_string_func_with_arg,
-                        maybe_string_func_with_arg_index,
+                        node.get_instruction_position(maybe_string_func_with_arg),
                     )
                 case "endswith":
                     self.visit_endswith_function(
@@ -1900,7 +1900,7 @@ class DynamicSeedingInstrumentation(transformer.DynamicSeedingInstrumentationAda
                         code_object_id,
                         node,
                         maybe_string_func_with_arg,
-                        maybe_string_func_with_arg_index,
+                        node.get_instruction_position(maybe_string_func_with_arg),
                     )
 
     def visit_compare_op(  # noqa: D102, PLR0917
